@@ -15,6 +15,16 @@ Proof      : coq/Props/C08.v over Model/Commit.v with cas = true and NO hypothes
              (C08_failed_flip_reaction_regenerated); the chain theorems hold for every such schedule
              (C08_faulted_no_lost_update) and a committer whose pointer write raised is never acknowledged, whatever the
              pointer says afterwards (C08_failed_write_never_acknowledged).
+             The store REFUSES a write it has APPLIED (XFlipResent: botocore's default retry policy re-sends a PutObject whose
+             response was lost; the re-sent copy of the conditional request answers 412/409 because the first one landed): what
+             the commit point does about a refusal is regenerated (gen_refused_reads_back, gen_write_landed:
+             C08_refusal_read_back_regenerated -- it reads the pointer back and compares its content with its OWN file name, never a
+             version number); "an attempt is at / past its commit point iff the store applied its write, nobody is told
+             'conflict' about an applied write" is proved for every schedule in which no pointer write lands between the
+             refused-although-applied write and its read-back (C08_acknowledged_iff_applied_partial) and refuted without that
+             hypothesis (C08_acknowledged_iff_applied_refuted: a successor's name tells the read-back nothing).  The
+             failing-write theorems are stated over the same machine (identical to the unrestricted one on schedules without such
+             writes: prompt_irrelevant_without_pending).
              Model/PtrFallback.v is commit()'s FALLBACK: the pointer object read with the ETag is unusable (absent / garbage /
              dangling), `current = self.refresh()` re-reads it and recovers by scanning; damage events anywhere.
              UNCONDITIONALLY every applied pointer write replaced exactly the object whose ETag its committer had read, and the
@@ -27,8 +37,8 @@ Tie        : trace validation of the real S3StorageBackend + MetadataManager.com
              with conditional writes (harness/lib/mems3.py), under the scheduler, with a lock that grants
              everyone and with the real lease lock; the projection demands that the validation read IS the read
              that yields the ETag.  Faulted runs (one request-level failure of a committer's pointer PUT: not applied /
-             applied, response lost / in flight and landing at a scheduling point of its own; timeouts, connection
-             errors, 5xx) are projected onto Model/FlipFault.v and must be accepted by xrun_strict, agreeing on final
+             applied, response lost / in flight and landing at a scheduling point of its own / applied and the SDK's re-sent
+             copy refused; timeouts, connection errors, 5xx, 412/409) are projected onto Model/FlipFault.v and must be accepted by xrun_strict, agreeing on final
              pointer, the store's order of applied writes, outcomes and who failed.  Runs that START on an unusable pointer
              (missing / garbage / dangling / empty) are projected onto Model/PtrFallback.v (base reads by scanning, the
              unusable ETag read, the fallback refresh -- still unusable or repaired meanwhile --, the conditional write keyed to
@@ -37,7 +47,9 @@ Tie        : trace validation of the real S3StorageBackend + MetadataManager.com
 Oracle     : the serializability oracle of C01 on every explored schedule; on faulted schedules the acknowledged-commits
              oracle, judged from the STORE's own history of the pointer: acknowledged => the store applied that
              committer's write, once, and it replaced the very content the committer validated; retryable conflict =>
-             not applied; final table = serial replay of the applied writes in the store's order.  On unusable-pointer
+             not applied; final table = serial replay of the applied writes in the store's order.  A refused-although-applied
+             write whose version was superseded before the read-back gets its own stable key (ptr-fault:resent-superseded:...:
+             the documented limit of the read-back, reported on every tree).  On unusable-pointer
              schedules: every applied write replaced exactly the object its committer's ETag read returned, validated the
              version that object named (or, unusable, the scanned one); acknowledged <=> applied once; no acknowledged
              append's rows are missing; full serial replay whenever every scan returned the last written version (a scan
@@ -55,7 +67,8 @@ from harness.props import c01
 LEVEL = "proof"
 THEOREMS = ["C08_ack_implies_validated", "C08_no_lost_update", "C08_lost_lock_before_fence_conflict",
             "C08_cas_path_regenerated", "C08_failed_flip_reaction_regenerated", "C08_faulted_no_lost_update",
-            "C08_failed_write_never_acknowledged", "C08_fallback_replaced_what_it_read", "C08_fallback_no_lost_update_refuted",
+            "C08_failed_write_never_acknowledged", "C08_refusal_read_back_regenerated", "C08_acknowledged_iff_applied_refuted",
+            "C08_acknowledged_iff_applied_partial", "C08_fallback_replaced_what_it_read", "C08_fallback_no_lost_update_refuted",
             "C08_fallback_no_lost_update_partial", "C08_fallback_path_regenerated"]
 MANIFEST_ENTRY = {
     "level_text": "For CAS storage and ANY lock behaviour (exclusive, lease with arbitrary takeovers, or no exclusion at all) Coq "
@@ -65,7 +78,11 @@ MANIFEST_ENTRY = {
                   "same chain theorems for every schedule that also contains FAILING pointer writes (error other than the store's "
                   "refusal, applied or not, landing anywhere, incl. after the client gave up), with the committer's reaction computed "
                   "from the regenerated failure-class / handler tables, and a committer whose pointer write raised is proved never "
-                  "acknowledged; for commit()'s fallback on an UNUSABLE pointer (absent / garbage / dangling, damage anywhere) that every "
+                  "acknowledged; for a pointer write the store APPLIED and then REFUSED to the committer's face (SDK-level re-send of a "
+                  "request whose response was lost) that the regenerated commit point reads the pointer back against its own file name and "
+                  "that an attempt is past its commit point iff the store applied its write, nobody being told 'conflict' about an applied "
+                  "write -- under the stated hypothesis that no pointer write lands between that write and its read-back, and refuted by a "
+                  "computed witness without it (C08_acknowledged_iff_applied_partial / _refuted); for commit()'s fallback on an UNUSABLE pointer (absent / garbage / dangling, damage anywhere) that every "
                   "applied pointer write replaced exactly the object whose ETag was read and validated the version that object named "
                   "or, unusable, the version recovered by the scan -- unconditionally -- and the chain theorems under the stated "
                   "hypothesis that every scan returns the last successfully written version (without it they are refuted by a "
@@ -84,7 +101,10 @@ MANIFEST_ENTRY = {
                   "for a client that gave up on the request a landing event of its own (one fault per run); the fault injector at the boto "
                   "surface (harness/lib/protocol.py s3_fault) and the store's put history (mems3.py); the lost-lock theorem covers a lapse "
                   "BEFORE the fence -- a lapse between fence and conditional PUT can be acknowledged (harmless on CAS storage, "
-                  "C08_lapse_after_fence_example); C08_fallback_no_lost_update_partial assumes exact recovery scans (C10); pointer damage in "
+                  "C08_lapse_after_fence_example); the failing-write / applied-then-refused theorems are over the machine in which no pointer "
+                  "write lands while a read-back is pending (= the unrestricted machine where there is no applied-then-refused write); the "
+                  "check reports the excluded schedules under the stable keys ptr-fault:resent-superseded:* (operation committed twice: "
+                  "known limit of the equality read-back); C08_fallback_no_lost_update_partial assumes exact recovery scans (C10); pointer damage in "
                   "the harness is the initial state only; the real S3 lease lock's blocking loop / heartbeat is exercised by C19",
     "technique": "Coq invariant proofs (CAS, arbitrary lock, failing pointer writes, unusable pointer + fallback, lost-lock trace lemma) over "
                  "translator-regenerated kernels + trace validation, request-level fault injection and damaged-pointer initial states x "
@@ -98,7 +118,9 @@ MANIFEST_ENTRY = {
 # how the conditional PUT of the pointer fails at the S3 request level (harness/lib/protocol.py, case["s3_fault"])
 FAULT_MODES = ["before",       # the request is not applied; the client gets an error that is not the store's refusal
                "after",        # the request is applied; the response is lost
-               "inflight"]     # the client gives up; the request reaches the store LATER (actor "L"), precondition evaluated then
+               "inflight",     # the client gives up; the request reaches the store LATER (actor "L"), precondition evaluated then
+               "resent"]       # the request is applied, the response is lost, the SDK RE-SENDS it (botocore's default retry policy)
+                               # and the second copy is refused (412 / 409): the client sees the store's refusal of an applied write
 FAULT_EXCS = ["timeout", "500", "connclosed", "503", "oserror", "reqtimeout", "connect"]
 XREQ = ["DS.Model.Commit", "DS.Model.FlipFault"]
 
@@ -135,7 +157,7 @@ def pointer_history(res: P.CaseResult) -> Tuple[List[Dict[str, Any]], Optional[s
         elif op in ("write_file", "write_file_cas") and P.path_class(e["path"]) == "hint":
             if e.get("s3_fault") == "inflight":
                 sent_read[a] = last_read.get(a)
-            elif e["result"] == "ok" or e.get("s3_fault") == "after":
+            elif e["result"] == "ok" or e.get("s3_fault") in ("after", "resent"):
                 senders.append((a, last_read.get(a)))
         elif op == "Land" and e["result"] == "applied":
             senders.append((str(e.get("for")), sent_read.get(str(e.get("for")))))
@@ -186,6 +208,40 @@ def ack_oracle(case: Dict[str, Any], res: P.CaseResult) -> Optional[str]:
             return (f"{h['owner']}'s pointer write replaced {h['replaced']!r} but {h['owner']} had validated against "
                     f"{h['validated']!r}")
     return c01.serial_oracle(case, res, flips=owners)
+
+
+def misreported_writes(res: P.CaseResult) -> List[str]:
+    """Committers whose pointer write the store APPLIED (fault mode "resent": the re-sent copy of the request was refused) and
+    that took the refusal for a conflict: commit() discarded the metadata file it had written before releasing the lock."""
+    pending: Dict[str, bool] = {}
+    out: List[str] = []
+    for e in res.log:
+        a, op = e["actor"], e["op"]
+        if op in ("write_file", "write_file_cas") and P.path_class(e["path"]) == "hint" and e.get("s3_fault") == "resent":
+            pending[a] = True
+        elif op == "delete_file" and P.path_class(e["path"]) == "meta" and pending.get(a):
+            pending[a] = False
+            out.append(a)
+        elif op == "LockRel":
+            pending[a] = False
+    return out
+
+
+def superseded_before_read_back(res: P.CaseResult) -> bool:
+    """Did another committer's pointer write land between a refused-although-applied write ("resent") and the moment its
+    committer read the pointer back (or, in a source without read-back, released the lock)?"""
+    open_for: Optional[str] = None
+    for e in res.log:
+        a, op = e["actor"], e["op"]
+        is_hint_w = op in ("write_file", "write_file_cas") and P.path_class(e["path"]) == "hint"
+        if is_hint_w and e.get("s3_fault") == "resent":
+            open_for = a
+        elif open_for is not None and a == open_for and (op == "LockRel" or (op == "read_file" and "MetadataManager._hint_write_landed" in e["phase"])):
+            open_for = None
+        elif open_for is not None and a != open_for and ((is_hint_w and (e["result"] == "ok" or e.get("s3_fault") in ("after", "resent")))
+                                                         or (op == "Land" and e["result"] == "applied")):
+            return True
+    return False
 
 
 def _fault_case(ops: Any, lock: str, victim: str, mode: str, exc: str, nth: int = 1, clock: str = "tick", **extra: Any) -> Dict[str, Any]:
@@ -502,8 +558,8 @@ def check_fallback_runs(ctx, name: str, runs: List[Tuple[Dict[str, Any], Any, P.
 def _xev(ai: int, k: str) -> str:
     if k.startswith("XFlipErr"):
         return f"XFlipErr {ai}%nat {k.split()[1]}"
-    if k == "XUnwind":
-        return f"XUnwind {ai}%nat"
+    if k in ("XUnwind", "XFlipResent", "XReadBack"):
+        return f"{k} {ai}%nat"
     return f"XE {{| e_actor := {ai}%nat; e_kind := {c01._nat_args(k)} |}}"
 
 
@@ -516,7 +572,7 @@ def xmodel_expr(case: Dict[str, Any], res: P.CaseResult, events: List[Tuple[int,
     evs = "[" + "; ".join(_xev(ai, k) for ai, k in events) + "]"
     return (f"match xrun_strict {cfgs} false (xinit (init_world {{| m_ops := []; m_cur := 1; m_lu := {lu0} |}} "
             f"(fun a => match a with {kinds} | _ => KKeep end) (fun a => match a with {maxrs} | _ => 1%nat end))) {evs} 0%nat with "
-            f"| inl X => (1, xsummary X {n}%nat) | inr i => (0, (i, [], [], [], [])) end")
+            f"| inl X => (1, xsummary2 X {n}%nat) | inr i => (0, (i, [], [], [], [], [])) end")
 
 
 def check_fault_runs(ctx, name: str, runs: List[Tuple[Dict[str, Any], Any, P.CaseResult]]) -> None:
@@ -531,7 +587,10 @@ def check_fault_runs(ctx, name: str, runs: List[Tuple[Dict[str, Any], Any, P.Cas
                 fired[e["s3_fault"]] += 1
         why = ack_oracle(case, res)
         if why:
-            key = (f"ptr-fault:{sf['when']}:{case.get('lock')}:"
+            # a refused-although-applied write whose version was SUPERSEDED before the read-back is the documented limit of the
+            # read-back (C08_acknowledged_iff_applied_refuted): its own stable key
+            when = "resent-superseded" if sf["when"] == "resent" and superseded_before_read_back(res) else sf["when"]
+            key = (f"ptr-fault:{when}:{case.get('lock')}:"
                    + "+".join(o["kind"] + ("-" + o["which"] if "which" in o else "") for o in case["ops"]))
             if key not in seen_violation_keys:
                 seen_violation_keys.add(key)
@@ -545,7 +604,7 @@ def check_fault_runs(ctx, name: str, runs: List[Tuple[Dict[str, Any], Any, P.Cas
         kept.append((case, dev, res, events, vids))
     vals = coqbuild.coq_eval(XREQ, exprs, chunk=60) if exprs else []
     for (case, dev, res, events, vids), val in zip(kept, vals):
-        ok, (ptr_or_idx, _ops_final, hist, codes, failed) = val
+        ok, (ptr_or_idx, _ops_final, hist, codes, failed, misrep) = val
         if ok != 1:
             i = ptr_or_idx
             bad.append({"case": c01._case_json(case), "deviations": list(dev), "schedule": res.schedule, "rejected_event_index": i,
@@ -568,10 +627,13 @@ def check_fault_runs(ctx, name: str, runs: List[Tuple[Dict[str, Any], Any, P.Cas
         for e in res.log:
             if e.get("s3_fault") in ("before", "after") or (e["op"] == "Land"):
                 exp_failed.append(int((e["actor"] if e["op"] != "Land" else str(e.get("for")))[1:]))
-        if ptr_or_idx != final_vid or [a for (_v, a) in hist] != owners or list(codes) != exp_codes or list(failed) != exp_failed:
+        exp_mis = [int(a[1:]) for a in misreported_writes(res)]
+        if (ptr_or_idx != final_vid or [a for (_v, a) in hist] != owners or list(codes) != exp_codes or list(failed) != exp_failed
+                or list(misrep) != exp_mis):
             bad.append({"case": c01._case_json(case), "deviations": list(dev), "schedule": res.schedule,
-                        "model": {"ptr": ptr_or_idx, "hist": hist, "codes": codes, "failed": failed},
-                        "impl": {"ptr": final_vid, "applied": owners, "codes": exp_codes, "failed": exp_failed, "outcomes": res.outcomes}})
+                        "model": {"ptr": ptr_or_idx, "hist": hist, "codes": codes, "failed": failed, "misreported": misrep},
+                        "impl": {"ptr": final_vid, "applied": owners, "codes": exp_codes, "failed": exp_failed, "misreported": exp_mis,
+                                 "outcomes": res.outcomes}})
     ctx.stats["pointer_write_faults_fired"] = fired
     ctx.stats["faulted_schedules"] = len(runs)
     ctx.correspondence(name, len(runs), bad)
@@ -582,7 +644,8 @@ def run(ctx) -> None:
                 "conditional-write S3, (a) with a lock granting everyone, (b) with the real S3LockProvider (one attempt per "
                 "scheduler step) and a clock actor jumping past the 60 s lease at every point of a commit (lease lapse, takeover, "
                 "stale holder resuming); bounded-preemption enumeration + directed + random; (c) one request-level failure of a "
-                "committer's pointer PUT {not applied, applied with the response lost, in flight and landing later} x {read timeout, "
+                "committer's pointer PUT {not applied, applied with the response lost, in flight and landing later, applied and the SDK's "
+                "re-sent copy refused (412/409)} x {read timeout, "
                 "connection closed / refused / reset, 500, 503, 400 RequestTimeout} x {first, second attempt} x either committer, with "
                 "the other committer's whole commit (and the landing) at every position, under (a) and (b), + enumeration + random "
                 "3-4 committers; (d) committers that START on an unusable pointer {missing, garbage, dangling, (thorough) empty}: "
